@@ -312,11 +312,41 @@ pub struct RScenario {
 
 fn sweep_reader(bytes: &[u8], pws: &[Option<Vec<u8>>], stream: bool, start: usize, info: &mut Info) -> Result<(), String> {
     sweep_reader_x(bytes, pws, stream, start, info, &[4096], false)?;
+    if stream {
+        sweep_stream_skipping(bytes, start)?;
+    }
     if !stream && pws.iter().any(|p| p.is_some()) {
         // encrypted entries once more with a persistent caller: tiny buffers, and read() is called again
         // after an error ("no panic, then or on any later call")
         info.label("persistent-small-buffer-caller");
         sweep_reader_x(bytes, pws, stream, start, info, &[5], true)?;
+    }
+    Ok(())
+}
+
+/// Streaming consumer that reads NOTHING of any entry (every entry is skipped by the drop-time drain), one-shot
+/// fault at every I/O call. The drain's reaction to a reader error is a panic by design (accepted), a later call may
+/// report an error (accepted); what must not happen is a clean end-of-entries with a different entry list.
+fn sweep_stream_skipping(bytes: &[u8], start: usize) -> Result<(), String> {
+    use super::c09::observe_stream_partial;
+    let st0 = FaultState::new_kind(usize::MAX, false, true, 0);
+    let (v0, c0) = observe_stream_partial(NoSeek(FaultIo::new(Cursor::new(&bytes[start..]), st0.clone())), &[4096], &[1])?;
+    if !c0 {
+        return Ok(()); // the stream cannot be followed to its end even without faults (encrypted / descriptor entries)
+    }
+    let n = st0.count();
+    for k in fault_indices(n) {
+        for mode in MODES_ONESHOT {
+            FAULT_RUNS.fetch_add(1, Ordering::Relaxed);
+            let st = FaultState::new_kind(k, mode.0, false, mode.1);
+            let r = catch(|| observe_stream_partial(NoSeek(FaultIo::new(Cursor::new(&bytes[start..]), st.clone())), &[4096], &[1]));
+            if let Ok(Ok((v, true))) = r {
+                if v != v0 && mode.1 != crate::sio::EK_INTR {
+                    let names = |x: &Vec<EObs>| x.iter().map(|e| format!("{:?}", e)).collect::<Vec<_>>().len();
+                    return Err(format!("streaming reader, consumer skips every entry, fault at I/O call {k} of {n} (one-shot, kind={}): no call reported an error, the stream ended cleanly, but {} entries were listed instead of {} / with different metadata", crate::sio::ek_name(mode.1), names(&v), names(&v0)));
+                }
+            }
+        }
     }
     Ok(())
 }
@@ -439,7 +469,7 @@ fn sweep_big_open(n_entries: u32, kmax: usize, append: bool) -> Result<(), Strin
 }
 
 pub fn run(ctx: &mut Ctx) {
-    ctx.rule("each scenario is first run failure-free under a counting stream (n I/O calls), then re-run with a hard error injected at EVERY call index k<n (runs longer than 3000 I/O calls: the first and last 1200 indices and 600 evenly spaced ones), as a one-shot and as a sticky failure of kind Other, and with the kinds UnexpectedEof (one-shot, sticky) and Interrupted (one-shot: std's own retry loops swallow it, then the result must be the failure-free one); after the first error the scenario keeps issuing its remaining calls, then finish(), a second finish() and drop. readers: open + read every entry (seekable; streaming fully consumed; archives with encrypted entries a second time with a caller that reads 5 bytes at a time and calls read() again after an error) of the seed archives (plain, ZIP64, ZipCrypto, AES) and generated archives. writers: generated programs over all entry kinds, methods, extra data, aligned, ZipCrypto, optional append base and raw copies, completed by finish or drop; half of them with a caller that issues EVERY call of an operation whatever the earlier ones returned (write after a refused start_file, end_extra_data after a failed write) and calls flush() after each operation. writers_methods: every method x every kind of following operation, the same two callers. writers_far: two entries + comment written to a sparse sink that starts beyond 4 GiB, so the ZIP64 end record and locator are written and EVERY I/O call of the run (each field of those records) is failed in turn. big_open: archives with > 65535 entries, a fault at every one of the first K I/O calls (quick 48, thorough 200) of ZipArchive::new and of new_append (+1 entry, finish). Oracle: no panic/abort anywhere; if no call returned an error the logical result (entries, content, comment as seen by the crate reader and the independent parser) equals the failure-free result. Non-trivial = the failure-free run performs >=1 I/O call. evaluations counts scenarios; coverage.fault_runs counts injected-fault executions.");
+    ctx.rule("each scenario is first run failure-free under a counting stream (n I/O calls), then re-run with a hard error injected at EVERY call index k<n (runs longer than 3000 I/O calls: the first and last 1200 indices and 600 evenly spaced ones), as a one-shot and as a sticky failure of kind Other, and with the kinds UnexpectedEof (one-shot, sticky) and Interrupted (one-shot: std's own retry loops swallow it, then the result must be the failure-free one); after the first error the scenario keeps issuing its remaining calls, then finish(), a second finish() and drop. readers: open + read every entry (seekable; streaming fully consumed, and once more with a consumer that skips every entry - there a panic of the drop-time drain is accepted, a clean end with a different entry list is not; archives with encrypted entries a second time with a caller that reads 5 bytes at a time and calls read() again after an error) of the seed archives (plain, ZIP64, ZipCrypto, AES) and generated archives. writers: generated programs over all entry kinds, methods, extra data, aligned, ZipCrypto, optional append base and raw copies, completed by finish or drop; half of them with a caller that issues EVERY call of an operation whatever the earlier ones returned (write after a refused start_file, end_extra_data after a failed write) and calls flush() after each operation. writers_methods: every method x every kind of following operation, the same two callers. writers_far: two entries + comment written to a sparse sink that starts beyond 4 GiB, so the ZIP64 end record and locator are written and EVERY I/O call of the run (each field of those records) is failed in turn. big_open: archives with > 65535 entries, a fault at every one of the first K I/O calls (quick 48, thorough 200) of ZipArchive::new and of new_append (+1 entry, finish). Oracle: no panic/abort anywhere; if no call returned an error the logical result (entries, content, comment as seen by the crate reader and the independent parser) equals the failure-free result. Non-trivial = the failure-free run performs >=1 I/O call. evaluations counts scenarios; coverage.fault_runs counts injected-fault executions.");
     ctx.assume("streaming entries are read to the end, so the failure lands in a Result-returning call (the documented panic in the streaming ZipFile's drop-time drain is outside the property's wording)");
     ctx.assume("completion by drop swallows errors by design; for drop scenarios only the no-panic clause is checked");
     let seeds = seeds::small_seeds();
@@ -454,7 +484,13 @@ pub fn run(ctx: &mut Ctx) {
                 .prop_map(|(seed, mut program, stream, nested)| {
                     // a stored nested archive as the last member puts a second end record into the search window
                     if let Some(n) = nested {
+                        // the comment goes in half of the cases; in the others a short one is kept / added: the
+                        // read of the comment bytes is one of the I/O calls of the end-record parse
+                        let keep = n.len() % 2 == 0;
                         program.ops.retain(|o| !matches!(o, Op::Comment(_)));
+                        if keep {
+                            program.ops.push(Op::Comment(b"comment behind a nested archive".to_vec()));
+                        }
                         program.ops.push(Op::File { name: "nested.zip".into(), opts: gen::Opts::plain(gen::Method::Stored), chunks: vec![n] });
                     }
                     RScenario { seed, program: gen::tame(program), stream }
